@@ -32,6 +32,11 @@ def valid_strings(rng, count):
         t = [1, 2, 3, 4, 10, 4294967295][i % 6]
         m = [8, 9, 64, 65536, 1048576, 4294967295][(i // 6) % 6]
         out.append((mkstr(alg, t, m, salt, h), alg, t, m, salt, h))
+    # the shortest and the longest strings the format allows, both algorithms (all minimal / all maximal field lengths at once)
+    for alg in ("argon2i", "argon2id"):
+        for (sl, hl, m, t) in ((8, 16, 8, 1), (8, 16, 9, 9), (8, 17, 8, 1), (9, 16, 8, 1), (8, 16, 10, 1), (8, 16, 8, 10), (64, 128, 4294967295, 4294967295)):
+            salt, h = rbytes(rng, sl), rbytes(rng, hl)
+            out.append((mkstr(alg, t, m, salt, h), alg, t, m, salt, h))
     return out
 
 
